@@ -72,6 +72,12 @@ def gen_case(g):
                      "writer": rng.choice(["numpoly", "numpoly", "numpy"])})
         if kind == "int" and rng.random() < 0.3:
             case["fmt"], case["tol"] = "%d", 0.0
+            if route == "text" and rng.random() < 0.5 and poly["coefs"]:
+                # integers beyond 2**53 written with all their digits and read back as integers
+                big = 2 ** 53 + 1
+                poly["coefs"][0] = G.nested_map(lambda v: (big + v) if v >= 0 else -(big - v),
+                                                poly["coefs"][0])
+                case["load_dtype"] = "int64"
         if case["target"] in ("stringio", "bytesio") and route == "text" and rng.random() < 0.35:
             case["sequential"] = True
     return case
@@ -184,6 +190,10 @@ def run_case(case, ctx, scratch):
                                  f"{want!r:.200}", case)
         return
     ctx.count("text_roundtrips")
+    load_kw = {"dtype": case["load_dtype"]} if case.get("load_dtype") else {}
+    if load_kw:
+        ctx.count("text_big_integers")
+        facts["load_dtype"] = case["load_dtype"]
     writer = numpoly.savetxt if case["writer"] == "numpoly" else numpy.savetxt
     try:
         if target in ("stringio", "bytesio") and case.get("sequential"):
@@ -198,14 +208,14 @@ def run_case(case, ctx, scratch):
             writer(handle, poly, **kwargs)
             handle.seek(0)
             head = numpoly.loadtxt(handle, delimiter=case["delimiter"], comments=case["comments"],
-                                   max_rows=first.size)
+                                   max_rows=first.size, **load_kw)
             if not isinstance(head, numpoly.ndpoly) or head.shape != first.shape or \
                     M.diff_arrays(M.abstract(head), M.abstract(first), rtol=1e-6):
                 facts["failure"] = "value"
                 ctx.violation(facts, f"first of two arrays in one handle loaded as {head!r:.200}", case)
                 return
             back = numpoly.loadtxt(handle, delimiter=case["delimiter"], comments=case["comments"],
-                                   max_rows=max(poly.size, 1))
+                                   max_rows=max(poly.size, 1), **load_kw)
             src = None
         elif target == "stringio":
             handle = io.StringIO()
@@ -224,7 +234,8 @@ def run_case(case, ctx, scratch):
             writer(pathlib.Path(path), poly, **kwargs)
             src = pathlib.Path(path)
         if src is not None:
-            back = numpoly.loadtxt(src, delimiter=case["delimiter"], comments=case["comments"])
+            back = numpoly.loadtxt(src, delimiter=case["delimiter"], comments=case["comments"],
+                                   **load_kw)
     except Exception as err:  # pylint: disable=broad-except
         O.report_exception(ctx, facts, err, case, what=f"text round trip via {case['writer']}.savetxt")
         return
